@@ -2,47 +2,74 @@
 import re, os
 _here = os.path.dirname(os.path.abspath(__file__))
 X86FMT = ['asmjit/x86/x86formatter.cpp', 'asmjit/core/formatter.cpp', 'asmjit/core/string.cpp']
+ARMFMT = ['asmjit/arm/armformatter.cpp', 'asmjit/core/string.cpp']
 _common = dict(extra_c=['verif_printf.c'], wrap=['malloc', 'realloc'])
+_loops = ['VERIF_DIVC', 'VERIF_MEM_LOOPS']
 UNITS = [
-    Unit('x86op', harness=['h_x86fmt.cpp'], repo_units=X86FMT, cbmc_defines=['VERIF_DIVC', 'VERIF_MEM_LOOPS'], **_common),
-    Unit('x86mem', harness=['h_x86mem.cpp'], repo_units=X86FMT, cbmc_defines=['VERIF_DIVC', 'VERIF_MEM_LOOPS'], **_common),
-    Unit('x86line', harness=['h_x86line.cpp'], repo_units=X86FMT, cbmc_defines=['VERIF_DIVC', 'VERIF_MEM_LOOPS', 'VERIF_MEM_LOOPS_ALL'], **_common),
-    Unit('mcode', harness=['h_mcode.cpp'], repo_units=['asmjit/core/emitterutils.cpp', 'asmjit/core/string.cpp', 'asmjit/core/logger.cpp'], cbmc_defines=['VERIF_DIVC', 'VERIF_MEM_LOOPS'], **_common),
-    Unit('label', harness=['h_label.cpp'], repo_units=['asmjit/core/formatter.cpp', 'asmjit/core/string.cpp'], cbmc_defines=['VERIF_DIVC', 'VERIF_MEM_LOOPS'], **_common),
-    Unit('a64op', harness=['h_a64fmt.cpp'], repo_units=['asmjit/arm/armformatter.cpp', 'asmjit/core/string.cpp'], cbmc_defines=['VERIF_DIVC', 'VERIF_MEM_LOOPS'], **_common),
-    Unit('a64mem', harness=['h_a64mem.cpp'], repo_units=['asmjit/arm/armformatter.cpp', 'asmjit/core/string.cpp'], cbmc_defines=['VERIF_DIVC', 'VERIF_MEM_LOOPS'], **_common),
+    Unit('x86op', harness=['h_x86fmt.cpp'], repo_units=X86FMT, cbmc_defines=_loops, **_common),
+    Unit('x86mem', harness=['h_x86mem.cpp'], repo_units=X86FMT, cbmc_defines=_loops, **_common),
+    Unit('x86line', harness=['h_x86line.cpp'], repo_units=X86FMT, cbmc_defines=_loops + ['VERIF_MEM_LOOPS_ALL'], **_common),
+    Unit('mcode', harness=['h_mcode.cpp'], repo_units=['asmjit/core/emitterutils.cpp', 'asmjit/core/string.cpp', 'asmjit/core/logger.cpp'], cbmc_defines=_loops, **_common),
+    Unit('label', harness=['h_label.cpp'], repo_units=['asmjit/core/formatter.cpp', 'asmjit/core/string.cpp'], cbmc_defines=_loops, **_common),
+    Unit('a64op', harness=['h_a64fmt.cpp'], repo_units=ARMFMT, cbmc_defines=_loops, **_common),
+    Unit('a64mem', harness=['h_a64mem.cpp'], repo_units=ARMFMT, cbmc_defines=_loops, **_common),
+    Unit('a64line', harness=['h_a64line.cpp'], repo_units=['asmjit/arm/a64formatter.cpp'] + ARMFMT, cbmc_defines=_loops + ['VERIF_MEM_LOOPS_ALL'], **_common),
 ]
 def _fns(src):
     return re.findall(r'^HARNESS (h_\w+)\(\)', open(os.path.join(_here, src)).read(), re.M)
+def _known(fn):
+    m = re.search(r'_kf_(\w+)$', fn)
+    return m.group(1) if m else None
 HARNESSES = []
 for unit, src in (('x86op', 'h_x86fmt.cpp'), ('x86mem', 'h_x86mem.cpp')):
   for fn in _fns(src):
     wide = fn.endswith('_wide') or fn.endswith('imm_32')
-    HARNESSES.append(Harness(unit, fn, unwind=18, mem_gb=6, timeout=900 if not wide else 3600, tiers=('thorough',) if wide else ('quick', 'thorough'),
-        bounds='register type / operand shape constant per harness; ids, size, segment, shift, displacement, immediate and all format flags symbolic; decimal numbers bounded as the template arguments say (hexadecimal: full width)'))
+    HARNESSES.append(Harness(unit, fn, unwind=18, mem_gb=3, timeout=900 if not wide else 3600, tiers=('thorough',) if wide else ('quick', 'thorough'),
+        bounds='register type / operand shape constant per harness; ids, size, segment, shift, displacement, immediate and all format flags symbolic; decimal numbers bounded as the template arguments say '
+               '(hexadecimal: full width); label bases and label operands: 16-bit ids through a token stub of Formatter::format_label'))
 # x86 instruction line. Cheap harnesses (everything that decides a length is a constant) get a small memory reservation so that they run side by side.
 _line_sym = ('_w_vex', '_w_form', '_w_lock', '_w_rep', '_w_repreg', '_x_', '_full6', '_id', '_badid')
 for fn in _fns('h_x86line.cpp'):
     heavy = any(t in fn for t in _line_sym)
-    HARNESSES.append(Harness('x86line', fn, unwind=100, mem_gb=6 if heavy else 2, timeout=900,
+    HARNESSES.append(Harness('x86line', fn, unwind=100, mem_gb=4 if heavy else 1, timeout=900,
         bounds='operands and mnemonic are fixed-length tokens from harness stubs; h_x86line_w_*: the option words of one group symbolic (others off), no operands; '
                'h_x86line_x_*: one symbolic group in front of 1 or 3 operands; the others: options constant per harness, 0..6 operands; register ids, immediate value, mask '
                'register id 1..7, broadcast within {2,4,8} / {16,32,64}, instruction id (h_x86line_id: every defined id; h_x86line_badid: the 65536 ids above the last defined one) '
                'and the format flags (except kExplainImms) symbolic'))
 for fn in _fns('h_mcode.cpp'):
-    HARNESSES.append(Harness('mcode', fn, unwind=33, mem_gb=4, timeout=900, bounds='TODO'))
+    HARNESSES.append(Harness('mcode', fn, unwind=33, mem_gb=2, timeout=900,
+        bounds='h_mc_col_*: finish_formatted_line with n = 0..6 bytes and every split into opcode / pending displacement / immediate (rel + imm <= n), n = 7..15 (and 2 with user paddings / a long line) '
+               'with rel in {0,1,4} and imm in {0,1,2,4,8}; byte values and format flags symbolic; instruction text of 10, 14 or 50 characters; paddings default (44 / 26) or 20 / 12; comment absent or a 5-character constant. '
+               'h_mc_emit_*: log_instruction_emitted with 1, 5, 6, 7, 15 bytes behind the cursor, constant rel / imm / indentation / paddings per harness; bytes, instruction id, options, extra register, the six operands '
+               '(raw 128-bit values), architecture byte and format flags symbolic'))
 for fn in _fns('h_label.cpp'):
-    HARNESSES.append(Harness('label', fn, unwind=28, mem_gb=4, timeout=900, bounds='TODO'))
-for unit, src in (('a64op', 'h_a64fmt.cpp'), ('a64mem', 'h_a64mem.cpp')):
+    HARNESSES.append(Harness('label', fn, unwind=28, mem_gb=3, timeout=900,
+        bounds='label tables of 4 entries (20 for anonymous labels) built by hand; which entry is asked for, the parent (one of two), bound / unbound and the section symbolic; names are 7-character constants, '
+               'different per entry; ids without a code holder below 1024; invalid ids: the 256 ids behind the table, 3000000000 and 0xFFFFFFFF'))
+for unit, src in (('a64op', 'h_a64fmt.cpp'), ('a64mem', 'h_a64mem.cpp'), ('a64line', 'h_a64line.cpp')):
   for fn in _fns(src):
-    m = re.search(r'_kf_(\w+)$', fn)
-    HARNESSES.append(Harness(unit, fn, unwind=26, mem_gb=4, timeout=900, known=m.group(1) if m else None, bounds='TODO'))
+    HARNESSES.append(Harness(unit, fn, unwind=42 if unit == 'a64line' else 26, mem_gb=3, timeout=900, known=_known(fn),
+        bounds='a64op: register kind / arrangement constant per harness, ids 0..31 (w/x: 0..30, sp / zr separately) symbolic; element index: every index on format_register itself, the last element through '
+               'format_operand; immediates: 12-bit decimal / 64-bit hexadecimal symbolic without modifier, constants with a modifier; modifier names: all 16 field values. a64mem: addressing form, index width and '
+               'modifier constant per harness; base / index ids (labels: 16 bits) symbolic, amount 0..4 (one path each), offset symbolic (12-bit decimal / 32-bit hexadecimal) in the base+offset form, -256 and 4095 '
+               'in the pre / post / label forms. a64line: 0..6 operands (token stubs), condition EQ..LE symbolic, every defined instruction id (h_a64line_id), kIdNone and the 256 ids above the table (badid)'))
 EXPLANATION = 'bounded symbolic execution (CBMC) of the real formatter compiled from /repo; the produced text is matched token by token against names from the architecture manuals and numbers are parsed back'
 OUTSIDE = [
     'x86 instruction line: combinations of option words from different groups other than "all set" / "none set" (the formatter appends the groups one after the other; each group is decided with all its combinations)',
-    'x86 instruction line: FormatFlags::kExplainImms (the explanation of an immediate is commentary, not denotation); undefined instruction ids above _kIdCount + 65535 (32-bit decimal parse-back is not decided by SAT in the budget)',
+    'FormatFlags::kExplainImms (the explanation of an immediate is commentary, not denotation); undefined x86 instruction ids above _kIdCount + 65535 and other 32-bit decimal numbers wider than the bounds say (a symbolic 32-bit decimal parse-back is not decided by SAT in the budget)',
+    'machine-code column: more than 15 bytes and, for 7..15 bytes, splits other than rel in {0,1,4} x imm in {0,1,2,4,8} (one path per split: about 1.5 s each); symbolic paddings / indentation '
+    '(they decide text lengths; decided for the defaults and one user setting); comments other than one constant (the comment is copied by String::append, its length by str_nlen up to 1024); lines that do not fit the 256-byte StringTmp (growth is C15)',
+    'log_label_bound and the whole-log transcript over real emission sweeps (C01 / C02): the column is decided on symbolic bytes in the buffer, not on bytes produced by an encoder run',
+    'labels: names with symbolic characters (a name is copied by String::append(const char*)); label tables beyond 20 entries',
+    'AArch64: virtual registers (Compiler), register lists, [base, index, offset] mixed forms, PC-relative and absolute-address memory operands, CondCode::kNA, AArch32 register names; an Imm whose modifier is LSL prints like one without modifier (ShiftOp::kLSL is 0)',
+    'virtual-register naming through a Compiler, format_node_list',
 ]
 ASSUMPTIONS = [
     'vsnprintf/snprintf are modelled by tools/verif_printf.c (%%, %c, %s, %d, %u, %zu, %0Nu); the native twin runs libc, and translator validation compares the two on random runs',
-    'x86mem / x86line: x86::FormatterInternal::format_register (and in x86line format_operand and InstInternal::inst_id_to_string) are harness stubs that append a fixed-length token encoding their arguments; their own text is decided by the x86op unit (mnemonics: C13)',
+    'x86mem / x86line / a64mem / a64line: FormatterInternal::format_register (and in the line units format_operand and InstInternal::inst_id_to_string; in x86mem / a64mem Formatter::format_label) are harness stubs that append a '
+    'fixed-length token encoding their arguments; their own text is decided by the x86op / a64op / label units (mnemonics: C13)',
+    'mcode: BaseEmitter::_funcs.format_instruction is a harness stub (records its arguments, appends a fixed token); the logger is a harness subclass of Logger that keeps the text; the assembler object is typed storage with the '
+    'fields log_instruction_emitted reads (_logger, _funcs, _buffer_ptr, _environment, _extra_reg, _inline_comment); the cursor stands at the first byte of its own array object (pointer differences of other shapes are not folded by the solver front end)',
+    'label: CodeHolder label table and LabelEntry::ExtraData records are built by hand (include/ch_env.h) in the states new_label_id / new_named_label_id / bind_label leave them',
+    'the String written to has external storage of 255 characters (no allocation is a checked side condition: malloc / realloc are wrapped and counted)',
 ]
